@@ -174,11 +174,9 @@ func (g *gen) history(maxLen int) []Op {
 			e := Env{}
 			if g.rng.Chance(1, 2) {
 				g.inject(&c, &e)
-				if c.Top != 0 {
-					c.Top = 0
-				}
 				e.Post = false
 			}
+			c.Top = 0
 			ops = append(ops, Op{Kind: 'V', Cfg: c, Env: e})
 		case r < g.prof.Stop+3+g.prof.Validate+18 && last != nil && len(last.Apps) > 0:
 			// partial change of the (presumably) running configuration
